@@ -129,6 +129,22 @@ def is_guard(st: ast.stmt) -> bool:
     return isinstance(st, ast.If) and not st.orelse and len(st.body) == 1 and isinstance(st.body[0], ast.Return) and _is_fallback_value(st.body[0].value)
 
 
+class NotOneAtan2(AlgebraError):
+    """The function is not `... atan2(y, x) ...` with a single atan2: the whole-circle reading (analyse_circle) applies."""
+
+
+# inverse trigonometric functions and the sign functions that go with them: where the angle is made from the sine / cosine terms
+ANGLE_FUNCS = ("atan2", "arctan2", "acos", "arccos", "asin", "arcsin", "atan", "arctan", "sign", "copysign")
+
+
+def _angle_call(n: ast.AST) -> bool:
+    if not isinstance(n, ast.Call):
+        return False
+    f = n.func
+    name = f.id if isinstance(f, ast.Name) else (f.attr if isinstance(f, ast.Attribute) else None)
+    return name in ANGLE_FUNCS
+
+
 def analyse(fn: ast.FunctionDef, fold: Optional[Callable[[ast.AST], Any]] = None) -> Dict[str, Any]:
     alg = NumAlgebra(fold)
     pnames = [a.arg for a in fn.args.args][:4]
@@ -136,8 +152,9 @@ def analyse(fn: ast.FunctionDef, fold: Optional[Callable[[ast.AST], Any]] = None
         raise AlgebraError("torsion function does not take four points")
     pts = {p: Vec(var(f"{p}{ax}") for ax in "xyz") for p in pnames}
     at = [c for c in ast.walk(fn) if isinstance(c, ast.Call) and ast.unparse(c.func).endswith(("atan2", "arctan2"))]
-    if len(at) != 1 or len(at[0].args) != 2:
-        raise AlgebraError("expected exactly one atan2(y, x)")
+    others = [c for c in ast.walk(fn) if _angle_call(c) and not any(c is a for a in at)]
+    if len(at) != 1 or len(at[0].args) != 2 or others:
+        raise NotOneAtan2("expected exactly one atan2(y, x)" + (f" and no other inverse trigonometric / sign function (found `{ast.unparse(others[0])[:40]}`)" if others and len(at) == 1 else ""))
     env: Dict[str, Any] = dict(pts)
     guards: List[Tuple[ast.If, Dict[str, Any], Dict[str, ast.AST]]] = []
     defs: Dict[str, ast.AST] = {}
@@ -166,7 +183,9 @@ def analyse(fn: ast.FunctionDef, fold: Optional[Callable[[ast.AST], Any]] = None
         else:
             raise AlgebraError(f"assignment outside the straight-line idiom: {ast.unparse(t)[:40]} = {ast.unparse(v)[:40]}")
 
+    envs: List[Tuple[ast.stmt, Dict[str, Any]]] = []  # environment before each statement of the prefix
     for i, st in enumerate(fn.body):
+        envs.append((st, dict(env)))
         if any(c is at[0] for c in ast.walk(st)):
             at_stmt, idx = st, i
             break
@@ -181,7 +200,7 @@ def analyse(fn: ast.FunctionDef, fold: Optional[Callable[[ast.AST], Any]] = None
         else:
             raise AlgebraError(f"statement outside the straight-line idiom: {ast.unparse(st)[:60]}")
     if at_stmt is None or not isinstance(at_stmt, (ast.Assign, ast.AnnAssign, ast.Return)):
-        raise AlgebraError("the atan2 is not the value of an assignment or of a return at the top level of the function")
+        raise NotOneAtan2("the atan2 is not the value of an assignment or of a return at the top level of the function")
     y = alg.ev(at[0].args[0], env)
     x = alg.ev(at[0].args[1], env)
     if isinstance(x, Vec) or isinstance(y, Vec):
@@ -219,6 +238,8 @@ def analyse(fn: ast.FunctionDef, fold: Optional[Callable[[ast.AST], Any]] = None
         "quantities": quantities,
         "tail": list(fn.body[idx + 1 :]),
         "env": env,
+        "envs": envs,
+        "pts": [p1, p2, p3, p4],
     }
 
 
